@@ -7,10 +7,18 @@ use fmt::Display;
 
 use crate::{interpreter::error::LogicError, parser::error::SyntaxError};
 
-#[derive(Debug, Clone, Copy)]
+#[derive(Clone, Copy)]
 pub struct Located<T> {
     pub data: T,
     pub location: Option<[u32; 2]>,
+}
+
+// like PartialEq, Debug looks at the data only: a message that quotes a form with {:?}
+// must read the same wherever in the source that form was written
+impl<T: fmt::Debug> fmt::Debug for Located<T> {
+    fn fmt(&self, f: &mut fmt::Formatter<'_>) -> fmt::Result {
+        self.data.fmt(f)
+    }
 }
 
 pub trait ToLocated {
